@@ -1,4 +1,4 @@
-import BppProofs.Lemmas.NumDerivExact5
+import BppProofs.Lemmas.NumDerivCross
 /-!
 # C12 — numerical derivatives are transparent and exact on low-degree polynomials
 
@@ -577,5 +577,46 @@ theorem two_point_stored_exact (f : List ℝ → ℝ) (w : W ℝ) (params : PLis
   have := two_point_remainder_deg2 a0 a1 a2 b.value (-(Scalar.one + Scalar.abs b.value) * w.h) hne
   rw [this]
   simp only [ScalarReal.one_eq, ScalarReal.abs_eq]
+
+
+/-! ## 9. Cross derivatives, end to end (three-point scheme with cross derivatives, nominal path) -/
+
+/-- with cross derivatives switched on the three-point wrapper does not raise on the nominal path,
+stores the same first and second derivatives, and for every ordered pair of distinct selected
+variables present in the list stores the 2×2-stencil quotient around the requested point
+(`get2 m i j` is the entry `(i, j)` of the matrix `crossDer2_`) -/
+theorem three_point_cross_computes (f : List ℝ → ℝ) (w : W ℝ) (params : PList ℝ) (hown : Own w.fn) (hok : w.fn.OK f)
+    (hF : Free f params w.fn.params) (hpnd : (names params).Nodup) (hc1 : w.c1 = true) (hcx : w.cx = true)
+    (hvars : w.vars.Nodup) (hin : ∀ v ∈ w.vars, has params v = true → v ∈ names w.fn.params) (hh : 0 < w.h)
+    (hl1 : w.der1.length = w.vars.length) (hl2 : w.der2.length = w.vars.length) :
+    (update3 f w params).2 = none ∧
+    (∀ k (hk : k < w.vars.length), has params w.vars[k] = true →
+      (update3 f w params).1.der1[k]? = some (three1 f w.fn.params w.h w.vars[k]) ∧
+      (update3 f w params).1.der2[k]? = some (three2 f w.fn.params w.h (f (values w.fn.params)) w.vars[k])) ∧
+    (∀ i (hi : i < w.vars.length) j (hj : j < w.vars.length), i ≠ j → has params w.vars[i] = true →
+      has params w.vars[j] = true → get2 w.cross i j ≠ none →
+      get2 (update3 f w params).1.cross i j = some (crossVal f w.fn.params w.h w.vars[i] w.vars[j])) :=
+  update3_free_cross f w params hown hok hF hpnd hc1 hcx hvars hin hh hl1 hl2
+
+/-- the stored cross derivative is the analytical one when `f`, as a function of the two variables
+alone, has degree ≤ 2 in each of them -/
+theorem cross_stored_exact (f : List ℝ → ℝ) (w : W ℝ) (params : PList ℝ) (hown : Own w.fn) (hok : w.fn.OK f)
+    (hF : Free f params w.fn.params) (hpnd : (names params).Nodup) (hc1 : w.c1 = true) (hcx : w.cx = true)
+    (hvars : w.vars.Nodup) (hin : ∀ v ∈ w.vars, has params v = true → v ∈ names w.fn.params) (hh : 0 < w.h)
+    (hl1 : w.der1.length = w.vars.length) (hl2 : w.der2.length = w.vars.length)
+    (i j : Nat) (hi : i < w.vars.length) (hj : j < w.vars.length) (hij : i ≠ j)
+    (hhi : has params w.vars[i] = true) (hhj : has params w.vars[j] = true) (hrange : get2 w.cross i j ≠ none)
+    (b1 b2 : Param ℝ) (hb1 : find? w.fn.params w.vars[i] = some b1) (hb2 : find? w.fn.params w.vars[j] = some b2)
+    (c : Fin 3 → Fin 3 → ℝ)
+    (hbq : ∀ s t, f (values (upd1 (upd1 w.fn.params w.vars[i] s) w.vars[j] t)) = biquad c s t) :
+    get2 (update3 f w params).1.cross i j = some (some (biquadXY c b1.value b2.value)) := by
+  obtain ⟨_, _, h⟩ := update3_free_cross f w params hown hok hF hpnd hc1 hcx hvars hin hh hl1 hl2
+  rw [h i hi j hj hij hhi hhj hrange]
+  have hne1 : (Scalar.one + Scalar.abs b1.value) * w.h ≠ 0 := by
+    simp only [ScalarReal.one_eq, ScalarReal.abs_eq]; exact mul_ne_zero (by positivity) (ne_of_gt hh)
+  have hne2 : (Scalar.one + Scalar.abs b2.value) * w.h ≠ 0 := by
+    simp only [ScalarReal.one_eq, ScalarReal.abs_eq]; exact mul_ne_zero (by positivity) (ne_of_gt hh)
+  simp only [crossVal, hb1, hb2, hbq]
+  rw [cross_exact_biquadratic c b1.value b2.value _ _ hne1 hne2]
 
 end Bpp.C12
